@@ -783,8 +783,45 @@ class Canon:
                 if counts.get(name) == 1 and st.value.elts and all(
                         isinstance(x, ast.Name) or (isinstance(x, ast.Attribute) and _is_path(x)) for x in st.value.elts):
                     self.type_tuples[name] = st.value
+        # class-level constant tables (`_CHECKS = ((Type.VALUE, "ValueType", _is_value), ...)`): a loop over
+        # `self._CHECKS` inside the class is a literal loop too, when nothing else in the module binds the name;
+        # an item that names a method of the class is that method
+        self.class_tables: Dict[str, Dict[str, ast.expr]] = {}
+        self.class_methods: Dict[str, Set[str]] = {}
+        attr_stores: Dict[str, int] = {}
         for n in ast.walk(tree):
-            if isinstance(n, FuncNode):
+            if isinstance(n, ast.Attribute) and isinstance(n.ctx, (ast.Store, ast.Del)):
+                attr_stores[n.attr] = attr_stores.get(n.attr, 0) + 1
+        for c in [x for x in ast.walk(tree) if isinstance(x, ast.ClassDef)]:
+            methods = {m.name for m in c.body if isinstance(m, FuncNode)}
+            self.class_methods[c.name] = methods
+            for st in c.body:
+                tgt = val = None
+                if isinstance(st, ast.Assign) and len(st.targets) == 1 and isinstance(st.targets[0], ast.Name):
+                    tgt, val = st.targets[0].id, st.value
+                elif isinstance(st, ast.AnnAssign) and isinstance(st.target, ast.Name) and st.value is not None:
+                    tgt, val = st.target.id, st.value
+                if tgt is None or not isinstance(val, (ast.Tuple, ast.List)) or counts.get(tgt) != 1 or attr_stores.get(tgt):
+                    continue
+
+                def item_ok(x: ast.expr, methods=methods) -> bool:  # type: ignore[no-untyped-def]
+                    return (isinstance(x, ast.Constant) or (isinstance(x, ast.Name) and (x.id in methods or counts.get(x.id, 0) <= 1))
+                            or (isinstance(x, ast.Attribute) and _is_path(x)))
+
+                if val.elts and all(item_ok(x) or (isinstance(x, (ast.Tuple, ast.List)) and all(item_ok(y) for y in x.elts)) for x in val.elts):
+                    self.class_tables.setdefault(c.name, {})[tgt] = val
+        done_fns: Set[int] = set()
+        for c in [x for x in ast.walk(tree) if isinstance(x, ast.ClassDef)]:
+            for m in c.body:
+                if isinstance(m, FuncNode):
+                    self.current_class = c.name
+                    for n in ast.walk(m):
+                        if isinstance(n, FuncNode) and id(n) not in done_fns:
+                            done_fns.add(id(n))
+                            self.function(n)
+        self.current_class = None
+        for n in ast.walk(tree):
+            if isinstance(n, FuncNode) and id(n) not in done_fns:
                 self.function(n)
 
     # -- blocks
@@ -953,6 +990,18 @@ class Canon:
                 if la > lb or (la == lb and negated):
                     new_if = _loc(ast.If(test=negate(s.test), body=list(rest), orelse=[]), s)
                     return [new_if] + s.body, len(rest)
+            # S19b the same at the end of a loop body, where falling off the end is the `continue`:
+            #     `if c: A ; continue` ; B(end of the loop body)  with len(A) > len(B)  ->  `if not c: B ; continue` ; A
+            if (not s.orelse and ctx == "loop" and s.body and isinstance(s.body[-1], ast.Continue) and rest and not jumps(rest)
+                    and not any(isinstance(x, (ast.If, ast.For, ast.While, ast.Try, ast.With, ast.AsyncFor, ast.AsyncWith)) for x in rest)
+                    and not any(isinstance(n, (ast.Break, ast.Continue)) for x in rest for n in ast.walk(x))):
+                la, lb = len(s.body), len(rest) + 1
+                t_ = s.test
+                negated = (isinstance(t_, ast.UnaryOp) and isinstance(t_.op, ast.Not)) or (
+                    isinstance(t_, ast.Compare) and len(t_.ops) == 1 and isinstance(t_.ops[0], (ast.NotEq, ast.IsNot, ast.NotIn)))
+                if la > lb or (la == lb and negated):
+                    new_if = _loc(ast.If(test=negate(s.test), body=list(rest) + [_loc(ast.Continue(), s)], orelse=[]), s)
+                    return [new_if] + s.body[:-1], len(rest)
             # S6 conditional value: `if c: x = a else: x = b`  ->  `x = a if c else b`
             if len(s.body) == 1 and len(s.orelse) == 1:
                 ta, tb = _plain_target(s.body[0]), _plain_target(s.orelse[0])
@@ -1232,6 +1281,10 @@ class Canon:
                     s.iter = g.iter
                     s.body = [bind] + s.body
                     return [s], 0
+        if isinstance(s, ast.For) and s.orelse:
+            r4 = self._unroll(s, rest)
+            if r4 is not None:
+                return r4, 0
         if isinstance(s, ast.For) and not s.orelse:
             r4 = self._unroll(s, rest)
             if r4 is not None:
@@ -1519,12 +1572,141 @@ class Canon:
         return [first, loop]
 
     # -- S12
+    def _class_table(self, it: ast.expr) -> Optional[ast.expr]:
+        cls = getattr(self, "current_class", None)
+        if cls is None or not isinstance(it, ast.Attribute) or not isinstance(it.value, ast.Name):
+            return None
+        if it.value.id not in ("self", "cls", cls):
+            return None
+        return getattr(self, "class_tables", {}).get(cls, {}).get(it.attr)
+
+    def _method_items(self, stmts: List[ast.stmt]) -> Optional[List[ast.stmt]]:
+        """After a class-level table was written out: an item that names a method of the class may only be called
+        with `self` as its first argument, and that call is `self.<method>(...)`."""
+        cls = getattr(self, "current_class", None)
+        methods = getattr(self, "class_methods", {}).get(cls or "", set())
+        if not methods:
+            return stmts
+        ok = True
+
+        class _M(ast.NodeTransformer):
+            def visit_Call(self, node: ast.Call) -> ast.AST:
+                self.generic_visit(node)
+                if isinstance(node.func, ast.Name) and node.func.id in methods and node.args and isinstance(node.args[0], ast.Name) and node.args[0].id == "self":
+                    return _loc(ast.Call(func=ast.Attribute(value=ast.Name(id="self", ctx=ast.Load()), attr=node.func.id, ctx=ast.Load()),
+                                         args=node.args[1:], keywords=node.keywords), node)
+                return node
+
+        out = [_M().visit(x) for x in stmts]
+        local = NameFacts(self.fn).stores
+        for x in out:
+            for n in ast.walk(x):
+                if isinstance(n, ast.Name) and n.id in methods and isinstance(n.ctx, ast.Load) and not local.get(n.id):
+                    ok = False
+        return out if ok else None
+
+    def _search_loop(self, s: ast.For, it: ast.expr) -> Optional[List[ast.stmt]]:
+        """`for x in (a, b): if c(x): B; break` [`else: E`] with every path through B leaving the iteration (break,
+        raise, return, continue): an if / elif chain, the `else` clause last."""
+        if not (1 <= len(it.elts) <= 8) or len(s.body) != 1 or not isinstance(s.body[0], ast.If) or s.body[0].orelse:  # type: ignore[attr-defined]
+            return None
+        guard = s.body[0]
+        if not jumps(guard.body):
+            return None
+
+        def tails_ok(stmts: List[ast.stmt]) -> bool:
+            # a `break` / `continue` only as the last statement of a branch
+            for i, st in enumerate(stmts):
+                if isinstance(st, (ast.Break, ast.Continue)):
+                    if i != len(stmts) - 1:
+                        return False
+                elif isinstance(st, ast.If):
+                    if not tails_ok(st.body) or not tails_ok(st.orelse):
+                        return False
+                    if (any(isinstance(n, (ast.Break, ast.Continue)) for b in st.body + st.orelse for n in ast.walk(b))) and i != len(stmts) - 1:
+                        return False
+                elif any(isinstance(n, (ast.Break, ast.Continue)) for n in ast.walk(st)):
+                    return False
+            return True
+
+        def nest(stmts: List[ast.stmt]) -> List[ast.stmt]:
+            # what follows a guard that leaves the block moves into its `else`, so that a `break` ends its branch
+            out_: List[ast.stmt] = []
+            for i, st in enumerate(stmts):
+                if isinstance(st, ast.If):
+                    st = _loc(ast.If(test=st.test, body=nest(st.body), orelse=nest(st.orelse)), st)
+                    following = stmts[i + 1:]
+                    if following and jumps(st.body) and not st.orelse and any(isinstance(n, ast.Break) for b in st.body for n in ast.walk(b)):
+                        st.orelse = nest(following)
+                        out_.append(st)
+                        return out_
+                out_.append(st)
+            return out_
+
+        guard = _loc(ast.If(test=guard.test, body=nest([copy.deepcopy(b) for b in guard.body]), orelse=[]), guard)
+        if not tails_ok(guard.body) or any(isinstance(n, ast.Continue) for b in guard.body for n in ast.walk(b)):
+            return None
+        if isinstance(s.target, ast.Name):
+            names = [s.target.id]
+            rows = [[e] for e in it.elts]  # type: ignore[attr-defined]
+        elif isinstance(s.target, ast.Tuple) and all(isinstance(t, ast.Name) for t in s.target.elts):
+            names = [t.id for t in s.target.elts]  # type: ignore[attr-defined]
+            if not all(isinstance(e, (ast.Tuple, ast.List)) and len(e.elts) == len(names) for e in it.elts):  # type: ignore[attr-defined]
+                return None
+            rows = [list(e.elts) for e in it.elts]  # type: ignore[attr-defined]
+        else:
+            return None
+        if not all(_simple(v) or (isinstance(v, (ast.Tuple, ast.List)) and all(_simple(y) for y in v.elts)) for r in rows for v in r):
+            return None
+        facts = NameFacts(self.fn)
+        for x in names:
+            if facts.stores.get(x, 0) != 1 or x in facts.nested_refs:
+                return None
+
+        class _NoBreak(ast.NodeTransformer):
+            def visit_Break(self, node: ast.Break) -> ast.AST:
+                return _loc(ast.Pass(), node)
+
+            def visit_For(self, node: ast.For) -> ast.AST:
+                return node
+
+            visit_While = visit_AsyncFor = visit_For  # type: ignore[assignment]
+
+        # the loop variables keep the values of the row that matched: they are assigned in its branch
+        chain: List[ast.stmt] = list(copy.deepcopy(s.orelse))
+        for row in reversed(rows):
+            test = copy.deepcopy(guard.test)
+            body = [copy.deepcopy(b) for b in guard.body]
+            binds: List[ast.stmt] = []
+            for x, v in zip(names, row):
+                test = _Subst(x, v).visit(test)
+                if facts.loads.get(x, 0) == _all_loads(s, x):
+                    # not read after the loop: the value is written where the variable was
+                    body = [_Subst(x, v).visit(b) for b in body]
+                else:
+                    binds.append(_loc(ast.Assign(targets=[ast.Name(id=x, ctx=ast.Store())], value=copy.deepcopy(v)), s))
+            body = [_NoBreak().visit(b) for b in body]
+            chain = [_loc(ast.If(test=test, body=binds + body, orelse=chain), s)]
+        return chain
+
     def _unroll(self, s: ast.For, rest: List[ast.stmt]) -> Optional[List[ast.stmt]]:
         it = s.iter
+        from_class = False
         if isinstance(it, ast.Name) and it.id in getattr(self, "constants", {}) and NameFacts(self.fn).stores.get(it.id, 0) == 0:
             it = self.constants[it.id]
+        elif self._class_table(it) is not None:
+            it = self._class_table(it)  # type: ignore[assignment]
+            from_class = True
+        if isinstance(it, (ast.Tuple, ast.List)) and any(isinstance(n, ast.Break) for b in s.body for n in ast.walk(b)):
+            found = self._search_loop(s, it)
+            if found is not None:
+                return self._method_items(found) if from_class else found
+        if s.orelse:
+            return None
         if not isinstance(it, (ast.Tuple, ast.List)) or not (1 <= len(it.elts) <= 4):
             return None
+        if from_class:
+            return None  # (plain loops over class tables: not needed so far)
         if isinstance(s.target, ast.Tuple) and all(isinstance(t, ast.Name) for t in s.target.elts):
             # `for a, b in ((1, 2), (3, 4)): S(a, b)`
             names = [t.id for t in s.target.elts]  # type: ignore[attr-defined]
@@ -1850,6 +2032,23 @@ class Canon:
                 if nloads >= 1 and self._stable_flag(value, facts):
                     after = sum(_all_loads(x, name) for x in blk[i + 1:])
                     if after == nloads:
+                        sub = _Subst(name, value)
+                        for k in range(i + 1, len(blk)):
+                            blk[k] = sub.visit(blk[k])
+                        del blk[i]
+                        return True
+                # a size flag `empty = len(x) == 0` with x untouched while the flag is in use: substitute everywhere
+                # (len() of a local is taken to be total: the flag may move into a conditional position)
+                if (
+                    nloads >= 1 and isinstance(value, ast.Compare) and len(value.ops) == 1 and _is_call(value.left, "len", 1)
+                    and isinstance(value.left.args[0], ast.Name) and isinstance(value.comparators[0], ast.Constant)  # type: ignore[attr-defined]
+                    and isinstance(value.comparators[0].value, int)
+                ):
+                    subject = value.left.args[0].id  # type: ignore[attr-defined]
+                    after = sum(_all_loads(x, name) for x in blk[i + 1:])
+                    stable_root = (facts.stores.get(subject, 0) == 0 or (subject in facts.loop_targets and facts.stores.get(subject, 0) == 1)
+                                   or (facts.stores.get(subject, 0) == 1 and any(_plain_target(b_) == subject for b_ in blk[:i])))
+                    if after == nloads and stable_root and subject != name and not any(_may_mutate(x, subject) for x in blk[i + 1:]):
                         sub = _Subst(name, value)
                         for k in range(i + 1, len(blk)):
                             blk[k] = sub.visit(blk[k])
